@@ -280,3 +280,78 @@ PROPS['C12'] = dict(
                  'bit flips: strict rule (original value or an error, not-found only for absent keys); cuts, overwrites and garbage may remove whole records undetectably by design: a value once written to that key, or not-found, or an error',
                  'quick: every bit of header zones (first 40 bytes of each record, first 16 of each block, whole hint/marker files), one seeded bit per byte elsewhere in small files, every 37th byte in large ones; thorough: every bit of every byte of files up to 3000 bytes'],
 )
+
+ITER_CFG = '''SPECIFICATION Spec
+CONSTANTS
+  N = {N}
+  S = {S}
+  MaxCalls = {MaxCalls}
+  FreshSkips = TRUE
+INVARIANT Agree
+CHECK_DEADLOCK FALSE
+'''
+def iter_sig(e):
+    if e.get('ev') == 'icall':
+        return ('icall', e.get('op'), e.get('valid'))
+    if e.get('ev') == 'inew':
+        return ('inew', e.get('rev'), len(e.get('match', [])) > 0, e.get('valid'))
+    return None
+
+PROPS['C10'] = dict(
+    level='model_checking',
+    mc=[dict(module='Iter', name='MC_Iter', cfg=ITER_CFG, consts={}, workers=12, timeout=2400, xmx='16g',
+             quick=dict(N=4, S=2, MaxCalls=4), thorough=dict(N=5, S=3, MaxCalls=5))],
+    traces=[dict(profile='iter', spec='EngineTrace', enforce=['iter', 'keys', 'fold', 'vals', 'res', 'open'], sig=iter_sig,
+                 quick_seeds=1, thorough_seeds=2)],
+    rule='distinct (call, resulting validity) and (creation direction, prefix matches anything, initially valid) tuples per configuration; trivial = none',
+    assumptions=['Seek legality (fresh/rewound iterator, or no snapshot key between the target and the cursor) is defined once in the specification; the driver generates only legal Seeks and the trace specification re-checks legality (an illegal one is a driver bug: exit 2, never a violation)',
+                 'seek targets are logged in doubled rank space (2r = key r, 2r+1 = strictly between keys r and r+1); key order = byte order of the generated universe',
+                 'the mechanism model (per-shard cursors, heap, parked list, prefix skip) is checked against the reference cursor exhaustively for the bounded constants in mc_runs'],
+)
+
+CONC_CFG = '''SPECIFICATION Spec
+CONSTANTS
+  Clients = {Clients}
+  Keys = {1, 2}
+  Menu <- {Menu}
+  Bug = {}
+INVARIANTS {Invs}
+CHECK_DEADLOCK FALSE
+'''
+def lin_sig(e):
+    if e.get('ev') == 'reset':
+        return ('history', e.get('label', '').split(':')[0], e.get('label', '').split('/')[-1])
+    if e.get('ev') == 'ret':
+        return ('ret', e.get('op'), e.get('err'))
+    if e.get('ev') == 'cop':
+        return ('cop', e.get('op'), e.get('err'))
+    return None
+
+PROPS['C08'] = dict(
+    level='model_checking',
+    mc=[dict(module='MC_Conc', name='MC_ConcRW', cfg=CONC_CFG, consts=dict(Invs='QuiescentLiveEqualsRecovered IndexShowsRegister GetReturnsRegister NoInternalError NoDeadlock', Menu='MenuRW'),
+             workers=12, timeout=2400, xmx='16g',
+             quick=dict(Clients='{"a", "b", "c"}'), thorough=dict(Clients='{"a", "b", "c", "d"}'))],
+    traces=[dict(profile='conc', spec='LinTrace', enforce=[], sig=lin_sig, deterministic=False,
+                 quick_seeds=1, thorough_seeds=2, tlc_timeout=2400)],
+    rule='distinct (schedule kind, forced scenario) of recorded histories and distinct (call, outcome) pairs; each history is a different interleaving; trivial = none',
+    assumptions=['call/return order = a global atomic counter taken by the client immediately before the call and after the return (never wall-clock time)',
+                 'linearizability is checked per key (it is a local property); TLC places the unlogged linearization points',
+                 'forced schedules: a blocking hook parks client A at a schedule point while B runs; an interleaving the locks forbid is not explored (gate timeout), and time never produces a verdict',
+                 'a rejected concurrent history is itself the evidence (replay = re-validating the saved history); schedules are not reproducible by seed'],
+)
+
+PROPS['C09'] = dict(
+    level='model_checking',
+    mc=[dict(module='MC_Conc', name='MC_ConcAll', cfg=CONC_CFG, consts=dict(Invs='NoPanic NoInternalError NoDeadlock NoRace QuiescentLiveEqualsRecovered', Menu='MenuAll'),
+             workers=12, timeout=2400, xmx='16g',
+             quick=dict(Clients='{"a", "b", "c"}'), thorough=dict(Clients='{"a", "b", "c", "d"}'))],
+    traces=[dict(profile='race', spec='LinTrace', enforce=['c09', 'norace', 'nostuck'], sig=lin_sig, deterministic=False, race=True,
+                 quick_seeds=1, thorough_seeds=2, tlc_timeout=2400),
+            dict(profile='conc', spec='LinTrace', enforce=['nostuck'], sig=lin_sig, deterministic=False, race=True,
+                 quick_seeds=1, thorough_seeds=1, tlc_timeout=2400)],
+    rule='distinct (call kind, outcome) pairs per configuration of the mixed workloads, and distinct forced/random schedules; trivial = none',
+    assumptions=['the clause "without unsynchronised conflicting memory accesses" is a statement about memory accesses that a TLA+ specification does not observe: it is decided by Go\'s happens-before race detector acting as an execution monitor on the engine built with -race during these runs (a report makes the norace note false); the specification contributes the lockset invariant NoRace on the model and the schedule points used to perturb the runs',
+                 'deadlock: a run that does not finish within 120 s is reported with a goroutine dump (nostuck); panics are recovered per call and logged as outcome "panic", which no call allows',
+                 'errors allowed per call are listed in LinTrace.Allowed (Merge may answer "merge is in progress" or give up when its output would not fit)'],
+)
